@@ -22,6 +22,7 @@ pub fn info() -> PropInfo {
         rule: "proptest, six labelled input classes, every call in a crash-isolated child on an 8 MiB stack with a 60 s watchdog: (a) arbitrary Unicode strings <= 8 KB to both constructors in both formats; (b) grammar-generated near-valid SD-JWTs (part counts, base64url-looking parts, JSON envelopes with wrong / missing / extra members); (c) structural mutations of valid tokens (parts dropped / duplicated / swapped, '~' and '.' inserted or removed, truncation, every JSON position replaced by another type); (d) validly signed structures from the harness's packer with up to 6 deviations (disclosures of any shape and arity, digests from the wrong container kind, _sd / ... / _sd_alg / cnf / iss / exp of any type, hand-made KB-JWTs); (e) arbitrary selection JSON and key-binding arguments (inconsistent, unknown algorithms) on holders over honest and already narrowed SD-JWTs; (f) issuer inputs (non-object claims, any Unicode names, nesting <= 64, arbitrary path strings, any alg string). Oracle: the call returns Ok or Err; a panic, abort or stack overflow is a violation; watchdog => inconclusive. Non-trivial: the input got past the first parse step of its entry point (own decoder splits it and sees a JWT with a '.'), or is of class d/e/f. Distinct: hash of the case JSON. evaluations = library calls.",
         assumptions: &["inputs up to ~8 KB; stack exhaustion judged on an 8 MiB stack", "non-termination is reported as inconclusive (exit 2), never as a violation"],
         needs_mock: false,
+        rounds: 2,
     }
 }
 
@@ -275,7 +276,7 @@ fn signed_case() -> BoxedStrategy<Case> {
         2 => Just(Some(json!({"jwk": HolderKey::Ec.jwk_value().unwrap()}))),
         1 => Just(Some(json!({"jwk": HolderKey::Ed.jwk_value().unwrap()}))),
         // a valid key with the optional JWK members set to every value the JWK grammar knows
-        3 => (select(&["HS256", "HS384", "HS512", "ES256", "ES384", "RS256", "RS384", "RS512", "PS256", "PS384", "PS512", "EdDSA", "RSA1_5", "RSA-OAEP", "RSA-OAEP-256", "XX", ""][..]),
+        5 => (select(&["HS256", "HS384", "HS512", "ES256", "ES384", "RS256", "RS384", "RS512", "PS256", "PS384", "PS512", "EdDSA", "RSA1_5", "RSA-OAEP", "RSA-OAEP-256", "XX", ""][..]),
               select(&["sig", "enc", "x"][..]), any::<bool>(), any::<bool>())
             .prop_map(|(alg, usage, with_use, ed)| {
                 let mut j = if ed { HolderKey::Ed.jwk_value().unwrap() } else { HolderKey::Ec.jwk_value().unwrap() };
@@ -421,6 +422,17 @@ fn issue_case() -> BoxedStrategy<Case> {
         1 => deep_value(),
         1 => (claims_strategy(ClaimCfg::FULL), value_strategy(ClaimCfg::FULL, 2), select(&["_sd", "...", "_sd_alg", "cnf", "aud"][..])).prop_map(|(mut c, v, k)| {
             c.as_object_mut().unwrap().insert(k.to_string(), v);
+            c
+        }),
+        // a reserved name somewhere below the top level (object member, object inside an array)
+        2 => (claims_strategy(ClaimCfg::SHORT_F64), value_strategy(ClaimCfg::SHORT_F64, 1), select(&["_sd", "..."][..]), 0u8..4).prop_map(|(mut c, v, k, place)| {
+            let planted = match place {
+                0 => json!({ k: v }),
+                1 => json!([{ k: v }]),
+                2 => json!({"x": [[1, { k: v }]]}),
+                _ => json!({"a": 1, "zz": { k: v }}),
+            };
+            c.as_object_mut().unwrap().insert("planted".into(), planted);
             c
         }),
     ];
